@@ -171,8 +171,8 @@ AloneAtClean(p) == /\ ~Has(Pre.cache, Pre.ws[p].c)
 C10_CleanMovesToCache ==
   (AtRet("clean") /\ ev.verdict = "cleaned") =>
      \A p \in Scope : /\ ~Has(ws, p)
-                      /\ Has(Pre.ws, p) => \E n \in DOMAIN cache : /\ cache[n].c = Pre.ws[p].c /\ (Distinct => n = Pre.ws[p].c)   \* and, the cache being content-addressed, under its own name
-                                                                    /\ AloneAtClean(p) => cache[n].x = Pre.ws[p].x
+                      /\ Has(Pre.ws, p) => \E n \in DOMAIN cache : (cache[n].c = Pre.ws[p].c) /\ (Distinct => n = Pre.ws[p].c)   \* and, the cache being content-addressed, under its own name
+                                                                    /\ (AloneAtClean(p) => cache[n].x = Pre.ws[p].x)
 \* a target comes back with the permission its cache entry carries (a target still in place keeps its own)
 RestoredPerm == \A p \in Scope : LET c == g.utd0[p].c IN
                    IF HoldsPre(p, c) THEN ws[p].x = Pre.ws[p].x ELSE CacheHas(c) => ws[p].x = Pre.cache[c].x
